@@ -137,6 +137,7 @@ def run(repo, rep, tier):
     filename_chain(repo, rep, "R11.4")
     L.whitelist_rule(repo, rep, "R11.5")
     language_error_guards(repo, rep)
+    error_tokens_reviewed(repo, rep)
     # a multi-line expression is valid whatever the document's line ends
     # are (C20 owns the rewriting of the expression text)
     from . import c20 as _c20
@@ -188,6 +189,60 @@ def run(repo, rep, tier):
     from . import c06 as _c06b
     L.borrow(repo, rep, "R11.5", "C06", _c06b._loop, ("research-or-raise",))
     L.state_rule(repo, rep)
+
+
+ERROR_CLASSES = {"LanguageError", "ExpressionError", "ParseError",
+                 "CompilationError", "TranslationError",
+                 "UndefinedNamespacePrefix", "UnknownExpressionType",
+                 "TemplateError"}
+
+
+def error_token_census(repo):
+    """[(function, head of the message, token expression)] of the raises of
+    template errors that carry a token"""
+    out = []
+    for q, f in sorted(repo.funcs.items()):
+        for r in ast.walk(f.node):
+            if isinstance(r, ast.Raise) and isinstance(r.exc, ast.Call) and \
+                    src(r.exc.func).split(".")[-1] in ERROR_CLASSES and \
+                    len(r.exc.args) >= 2:
+                out.append([q, src(r.exc.args[0])[:40],
+                            src(r.exc.args[1])[:60]])
+    return out
+
+
+def error_tokens_reviewed(repo, rep, rule="R11.3"):
+    """the token of an error is the piece of template text the message is
+    about -- a reviewed table (reference_error_tokens.json, like the state
+    census): at every known error site the token expression is the reviewed
+    one.  New sites are covered by the provenance rule only, until they are
+    reviewed."""
+    import json
+    import os
+    path = os.path.join(os.path.dirname(os.path.dirname(
+        os.path.abspath(__file__))), "reference_error_tokens.json")
+    try:
+        ref = json.load(open(path))["census"]
+    except (OSError, ValueError, KeyError) as exc:
+        raise AnalysisError("reference_error_tokens.json: %s" % exc)
+    now = {}
+    for q, msg, tok in error_token_census(repo):
+        now.setdefault((q, msg), []).append(tok)
+    want = {}
+    for q, msg, tok in ref:
+        want.setdefault((q, msg), []).append(tok)
+    n = 0
+    for key, toks in sorted(want.items()):
+        if key not in now:
+            continue
+        n += 1
+        rep.check(sorted(now[key]) == sorted(toks), rule, key[0],
+                  "the token of the error %s... is %s" % (
+                      key[1][:30], " / ".join(sorted(set(toks)))),
+                  construct="error-token:%s" % key[1][:24],
+                  detail="now: %s" % now[key])
+    if n < 20:
+        raise AnalysisError("error-token census: %d known sites left" % n)
 
 
 def language_error_guards(repo, rep, rule="R11.5"):
